@@ -69,7 +69,7 @@ func TestC18http(t *testing.T) {
 		}
 		return out, nil
 	}
-	trials := cfg.N(40, 600)
+	trials := cfg.N(40, 3000)
 	var contended int64
 	for tr := 0; tr < trials; tr++ {
 		if !cfg.Mine(tr) {
